@@ -18,10 +18,20 @@ const (
 	// ToolchainBin holds the go1.26.2 toolchain the repository's own suite uses.
 	ToolchainBin = "/root/go/pkg/mod/golang.org/toolchain@v0.0.1-go1.26.2.linux-amd64/bin"
 	GoVersion    = "go1.26.2"
-	RepoDir      = "/repo"
 	VerifDir     = "/verif"
 	RealModCache = "/root/go/pkg/mod"
 )
+
+// RepoDir is the garble source tree the checks rebuild from: /repo. The
+// VERIF_REPO override exists only so that a development run against a scratch
+// copy (e.g. with a seeded patch) can proceed while /repo stays untouched;
+// registered commands never set it.
+var RepoDir = func() string {
+	if d := os.Getenv("VERIF_REPO"); d != "" {
+		return d
+	}
+	return "/repo"
+}()
 
 // WorkRoot is where persistent accelerators live (untracked).
 func WorkRoot() string { return filepath.Join(VerifDir, ".work") }
